@@ -16,6 +16,8 @@ pub mod c30;
 pub mod c31;
 pub mod c35;
 pub mod c37;
+pub mod c04;
+pub mod c07;
 pub mod c40;
 pub mod c41;
 pub mod c42;
@@ -36,6 +38,8 @@ pub fn dispatch(id: &str, args: &[String]) -> ! {
         "C12" => c12::run(args),
         "C14" => c14::run(args),
         "C49" => c49::run(args),
+        "C04" => c04::run(args),
+        "C07" => c07::run(args),
         "C40" => c40::run(args),
         "C41" => c41::run(args),
         "C42" => c42::run(args),
